@@ -11,7 +11,7 @@ func init() { register("C02", propC02) }
 
 // C02 — spending requires threshold signatures over the payload hash.
 func propC02(c *Check) {
-	c.Explain = "Decides that no accepting path of input validation bypasses signature verification and that the verifier is fed the right operands: (1) validateInputs: every non-exempt accepting return passes the success edge of crypto.AggregateVerify(..)==nil or crypto.BatchVerify(..)==true; exempt accepts are exactly {mint input, deposit input, len(keySigs)==0 && type in {NodeAccept,NodeRemove}}; the verifiers' message is the hash parameter, which Validate fills with ver.PayloadHash(); keys come from the Keys of the UTXO returned by the store; the map filled by validateUTXO is the one handed to BatchVerify; len(keySigs) < len(Inputs) rejects. (2) validateUTXO: keys inserted are utxo.Keys[..] only, index gate int(i) >= len(utxo.Keys) rejects, script inputs return utxo.Script.Validate(<number of collected signers>), nil is returned only under a txType comparison, aggregate branch is gated by validateAggregatedSigners. (3) Script.Validate/VerifyFormat gates. (4) BatchVerify empty/mismatch/nil gates, single-key path delegates to Verify. (5) AggregateVerify gates and operand provenance. (6) decodePoint caches a point only after subgroup and canonical-encoding gates. (7) BatchVerifier.Verify weights every entry with its own random coefficient: each iteration of the entries loop feeds Rcoeffs[i].SetCanonicalBytes from a buffer allocated in that iteration and filled by ReadRand on at least 16 bytes, and rejects on a short signature, an undecodable R or A, or a non-canonical scalar."
+	c.Explain = "Decides that no accepting path of input validation bypasses signature verification and that the verifier is fed the right operands: (1) validateInputs: every non-exempt accepting return passes the success edge of crypto.AggregateVerify(..)==nil or crypto.BatchVerify(..)==true; exempt accepts are exactly {mint input, deposit input, len(keySigs)==0 && type in {NodeAccept,NodeRemove}}; the verifiers' message is the hash parameter, which Validate fills with ver.PayloadHash(); keys come from the Keys of the UTXO returned by the store; the map filled by validateUTXO is the one handed to BatchVerify; len(keySigs) < len(Inputs) rejects. (2) validateUTXO: keys inserted are utxo.Keys[..] only, index gate int(i) >= len(utxo.Keys) rejects, script inputs return utxo.Script.Validate(<number of collected signers>), nil is returned only under a txType comparison, aggregate branch is gated by validateAggregatedSigners. (3) Script.Validate/VerifyFormat gates. (4) BatchVerify empty/mismatch/nil gates, single-key path delegates to Verify. (5) AggregateVerify gates and operand provenance. (6) decodePoint caches a point only after subgroup and canonical-encoding gates. (7) BatchVerifier.Verify weights every entry with its own random coefficient: each iteration of the entries loop feeds Rcoeffs[i].SetCanonicalBytes from a buffer allocated in that iteration and filled by ReadRand on at least 16 bytes, and rejects on a short signature, an undecodable R or A, or a non-canonical scalar. (8) verdict expressions: the only non-false verdict of VerifyWithChallenge is VarTimeDoubleScalarBaseMult(a, -A, s).Equal(R) == 1 past the three decode/scalar error gates, and of the batch verifier the cofactor-cleared multi-scalar combination .Equal(identity) == 1, with per-site error gates for R, A, s_i and z_i; (9) node accept / cancel, whose inputs are exempt from the input-signature rule, accept only past <pledging account key>.Verify(payloadHash, *sigs[0][0]); (10) every hash.Write precedes the hash.Sum in Key.Verify."
 	c.NotCov = "soundness of the Schnorr / batch equations; 'changing any byte makes it fail' (cryptographic); equality of batch and single verification results."
 	c.Floor(30)
 	w := c.W
